@@ -22,14 +22,17 @@ MANIFEST = dict(
         "for every objective (arbitrary f, grad, feasibility predicate), starting point, parameter setting and number of steps: "
         "best_value_is_f_best_point (reported value = f(reported point) after init and every step, for every optimizer of the model and every scalar type incl. Float), "
         "ls_derivative_is_grad_best_point, backtracking_no_increase (+ failure leaves point/value/gradient unchanged), "
-        "linesearch_methods_monotone_partial (one step does not increase the value given a non-ascent direction), direction_descent_neg_gradient, "
-        "bfgs_update_pd (quadratic-form identity x'H'x = z'Hz + (delta'x)^2/d of the BFGS update, hence PD-preservation), "
+        "linesearch_methods_monotone_bfgs (the values reported by BFGS with any dimension-preserving no-increase line search, in particular backtracking, are non-increasing over the whole run, "
+        "because bfgsUpdate_listPD keeps the list-based inverse-Hessian approximation symmetric positive definite (transported from bfgs_update_symPD on Mathlib matrices) and bfgs_direction_descent gives g'd<0), "
+        "linesearch_methods_monotone_partial (any of BFGS/CG/L-BFGS: one step does not increase the value given a non-ascent direction), direction_descent_neg_gradient, "
+        "sd/adam/rprop/ls/trn_step_reads_archived (against member lists regenerated from the C++ read/write bodies by translate/opt_fields.py on every run: every member step reads is archived, read mirrors write, the archive is the model's Saved structure), "
         "box_feasible_inv_rprop (Rprop never leaves the feasible set), resume_same_iterates (read(write s) = s for the archived members, so a restored instance continues with the same iterates). "
         "Tie: SteepestDescent/Adam/Rprop are compared bit for bit (Float instance of the same definitions, same operation order) and, for every C++ step that raised no FE_INEXACT, "
         "exactly with the Rat instance; BFGS/CG/L-BFGS by one-step refinement from the harness' own previous state (bit-identical in >90% of the steps, 1e-9 tolerance otherwise); "
+        "the line searches are additionally called directly from arbitrary points along arbitrary (descent, ascent, zero, random) directions (backtracking compared with the model, all three types checked against the contracts value=f(point), gradient=grad(point), no increase when g'd<=0); "
         "save/restore at random step indices through text and binary archives into a 0xFF-poisoned fresh instance, strict and lenient protocol."),
-  note=TRUST + "proved only under a hypothesis: monotonicity needs the direction to be a non-ascent direction (established for the -gradient direction; "
-       "for BFGS only at the level of the scalar identity bfgs_update_pd, not connected to the list-based matrix model; not provable for the C++ CG restart branch); "
+  note=TRUST + "monotonicity over whole runs is proved for BFGS only; for CG and L-BFGS only the one-step statement under the hypothesis that the direction is a non-ascent direction "
+       "(not provable for the C++ CG restart branch d := d - g, nor for Dai-Yuan CG with an Armijo-only line search; the L-BFGS two-loop recursion is modelled and tied but its positive definiteness is not proved); "
        "only exercised by the correspondence / harness oracle (not theorems): dlinmin and wolfecubic line searches (contracts LSSound/LSNoIncrease are hypotheses, checked per step on the real code), "
        "the box-constrained L-BFGS dog-leg (feasibility + monotonicity oracle only), TrustRegionNewton (oracle only: value=f(point), finite, no increase, resume), "
        "finiteness, convergence on strictly convex quadratics (numerical: ||grad||_inf <= 1e-6(1+||b||_inf) after 400/1000 steps). "
